@@ -370,6 +370,9 @@ def run_tags(sim, params):
         extra["card"]["timeout"] = sim.pick("card.timeout", [0.1, 0.5, 1.0])
     fault = sim.wpick("devfault", [(8, None), (1, "ioerror"), (1, "unsupported_A"), (1, "unsupported_listen"), (2, "closed")])
     fault_at = sim.pick("devfault.at", [0, 1, 3, 7])
+    # air interface error on the answer to the first command after a discovery (activation of the tag), once or twice
+    act_fault = sim.wpick("actfault", [(6, None), (1, "TransmissionError"), (1, "ProtocolError"), (1, "TimeoutError")])
+    act_n = sim.pick("actfault.n", [1, 2])
     close_at = None
     if fault == "closed":
         # often shortly before terminate() turns true: the presence loop then ends by terminate with the device gone
@@ -381,7 +384,7 @@ def run_tags(sim, params):
     if card_reader is not None and 0 < T_rel <= 1.6 and sim.chance("cr.slow_callback", 0.6):
         plan["card"]["delay"] = T_rel + 0.2       # terminate() turns true while the card's on-connect is still running
     desc = {"h": "tags", "tag": typ, "presence": presence, "T_term": T_rel, "options": which, "extra": extra, "card_reader": card_reader,
-            "plan": plan_desc(plan), "devfault": (fault, fault_at)}
+            "plan": plan_desc(plan), "devfault": (fault, fault_at), "actfault": (act_fault, act_n)}
     hist = History(k)
     out = {}
     state = {}
@@ -392,6 +395,9 @@ def run_tags(sim, params):
         if typ == "t4":
             kw = {"max_send": case.max_send, "max_recv": case.max_recv}
         d = w4.W4Device(nfc, k, tags, presence, **kw)
+        if act_fault is not None:
+            d.activation_fault = ((lambda: getattr(nfc.clf, act_fault)("sim: air error on the first command")), act_n)
+            sim.fault("activation_" + act_fault)
         if fault == "ioerror":
             d.sense_fault[fault_at] = lambda: IOError(5, "sim: host link lost")
         elif fault == "unsupported_A":
